@@ -23,7 +23,7 @@ def hook_commits():
 def main():
     checks = []
     for pid in ALL:
-        if pid not in CHECKS:
+        if pid not in CHECKS or not os.path.exists(os.path.join(V, 'vlib', 'props', pid.lower() + '.py')):
             continue
         c = CHECKS[pid]
         checks.append({
@@ -37,17 +37,18 @@ def main():
             'level_note': c['note'],
             'technique': c['technique'],
         })
-    na = [{'property_id': p, 'reason': r} for p, r in NOT_APPLICABLE.items() if p not in CHECKS]
+    claimed = set(c['property_id'] for c in checks)
+    na = [{'property_id': p, 'reason': r} for p, r in NOT_APPLICABLE.items() if p not in claimed]
     for pid in ALL:
-        if pid not in CHECKS and pid not in NOT_APPLICABLE:
+        if pid not in claimed and pid not in NOT_APPLICABLE:
             na.append({'property_id': pid, 'reason': 'check not built yet in this round (planned: see DESIGN.md section 6); not claimed'})
     man = {
         'version': 1,
         'setup_cmd': './setup.sh',
         'hooks': {
-            'guard': '--cfg curve25519_dalek_verif',
+            'guard': '--cfg curve25519_dalek_verif (the limb-bound monitor inside the vector kernels additionally needs --cfg curve25519_dalek_verif_bounds)',
             'enable': 'RUSTFLAGS="--cfg curve25519_dalek_verif [backend cfgs]" cargo build (vlib/build.py builds harness/driver against /repo per configuration)',
-            'baseline_off_cmd': 'cd /repo && cargo test --workspace --no-fail-fast --offline',
+            'baseline_off_cmd': 'cd /repo && cargo nextest run --workspace --no-fail-fast --tool-config-file pb:/w/lib/nextest.toml --profile pb --test-threads 8 --offline',
             'source_commits': hook_commits(),
             'add_only': True,
         },
